@@ -167,6 +167,12 @@ fn exec(env: &Env, case: &Case, deadline_s: u64, short_udp: bool, tally: &Tally)
 /// Key without its trailing length class: what "the same deadline failure" means when deciding
 /// whether another confirmation run (alone, full deadline) is worth its 20+ seconds.
 fn coarse(key: &str) -> String {
+    // (unsendable-destination scenarios: the variants of the second destination are one failure)
+    for head in [udp::UNSEND_LOST_KEY, udp::UNSEND_PORT_KEY] {
+        if key.strip_prefix(head).is_some_and(|rest| rest.starts_with('.')) {
+            return head.to_string();
+        }
+    }
     match key.rsplit_once(".len") {
         Some((head, _)) => head.to_string(),
         None => key.to_string(),
@@ -195,6 +201,7 @@ struct Sums {
     after_half_cases_clean: u64,
     slow_reader_cases_clean: u64,
     stray_cases_clean: u64,
+    unsendable_cases_clean: u64,
     families_cases_clean: u64,
     dual_listener_cases_clean: u64,
     dual_cases_clean: u64,
@@ -239,6 +246,8 @@ fn add_udp(a: &mut UdpStats, b: &UdpStats) {
     a.retransmissions += b.retransmissions;
     a.duplicates += b.duplicates;
     a.target_sources += b.target_sources;
+    a.unsendable_judged += b.unsendable_judged;
+    a.unsendable_answer_late += b.unsendable_answer_late;
 }
 
 // ---------------------------------------------------------------------------------------
@@ -439,6 +448,15 @@ fn matrix(b: &Bounds) -> Vec<Case> {
         for entry in Entry::V6 {
             for &(c2t, t2c) in &b.tcp_v6_lens {
                 v.push(Case::Tcp(TcpCase { entry, c2t, t2c, chunk: V6_CHUNK, order: V6_ORDER, conc: V6_CONC, dual: None, slow: None }));
+            }
+        }
+    }
+    // (they sleep most of their time: first among the ordinary UDP scenarios)
+    for kind in UKind::ALL {
+        for topo in Topo::UNSENDABLE {
+            let c = UdpCase { kind, size: udp::UNSEND_LEN, topo };
+            if c.valid() {
+                v.push(Case::Udp(c));
             }
         }
     }
@@ -1123,8 +1141,9 @@ pub fn run(args: &Args) -> Report {
                                                 *c.entry(coarse(&f.key)).or_insert(0) += 1;
                                             }
                                         }
-                                        // (a first datagram after the idle gap that is late costs no waiting: no reason to cut the rest short)
-                                        if c.iter().filter(|(k, _)| !k.starts_with("udp.request.lost-after-idle-gap.")).map(|(_, n)| *n).sum::<u64>() >= 2 {
+                                        // (a first datagram after the idle gap that is late costs no waiting: no reason to cut the rest short;
+                                        // the same goes for the definitive judgements of the unsendable-destination scenarios)
+                                        if c.iter().filter(|(k, _)| !k.starts_with("udp.request.lost-after-idle-gap.") && k.as_str() != udp::UNSEND_LOST_KEY && k.as_str() != udp::UNSEND_PORT_KEY).map(|(_, n)| *n).sum::<u64>() >= 2 {
                                             degraded.store(true, Ordering::SeqCst);
                                         }
                                     }
@@ -1153,6 +1172,7 @@ pub fn run(args: &Args) -> Report {
                                         Case::Tcp(t) if t.entry.v6literal() => g.v6_cases_clean += 1,
                                         Case::Tcp(t) if t.order.after_half() => g.after_half_cases_clean += 1,
                                         Case::Udp(u) if u.topo.stray().is_some() => g.stray_cases_clean += 1,
+                                        Case::Udp(u) if u.topo.unsendable().is_some() => g.unsendable_cases_clean += 1,
                                         Case::Udp(u) if u.topo.two_families() => g.families_cases_clean += 1,
                                         Case::Udp(u) if u.topo.dual_listener().is_some() => g.dual_listener_cases_clean += 1,
                                         _ => {}
@@ -1367,7 +1387,13 @@ pub fn run(args: &Args) -> Report {
         t
     };
     let stray_rule = format!("; plus SOCKS5 UDP (IPv4 header, domain header) x stray datagram to the relay port from another local socket after the first exchange ({}) with {}-byte payloads, 3 exchanges", Topo::STRAY.iter().filter_map(|t| t.stray()).map(|(d, n)| format!("{n}: {}", vcommon::report::hex(d))).collect::<Vec<_>>().join(", "), udp::STRAY_LEN);
-    rep.rule = format!("complete product, every point enumerated (no sampling): TCP = entry point (7) x connections {:?} x chunking (3) x [close order (4) x client->target length in L x target->client length in L + target-refuses x client->target length in L], where {len_rule}{after_half_rule}{slow_rule}{v6_rule}{dual_rule}; UDP = entry (UDP remote, SOCKS5 UDP with IPv4 header, with domain header) x topology (1 client, 3 clients, 1 socket to 2 entry points, 1 client whose payload lengths change from datagram to datagram (len, 3, len+500, 0, len+1); SOCKS5 only: 1 association alternating between 2 targets with the same host string and different ports, and between 2 targets with different host strings 127.0.0.1/127.0.0.2 and the same port) x payload length, 3 request/reply exchanges per leg{stray_rule}{families_rule}{dual_listener_rule}{}; one execution per point (more only after a lost port race or a deadline hit); a case is distinct when its parameter tuple is distinct", b.concs, if b.slow_udp { format!("; plus the real-time scenarios: UDP entry (3) x [steady sender: 1 datagram of {} bytes per second for 2*UDP_PRUNE_TIMEOUT+3 = {} s to a silent target, which then answers the last one | idle: one exchange, {} s of silence, one more exchange | idle gap between one and two prune timeouts: one exchange, {} s of silence, one more exchange from the same socket whose FIRST transmission must be at the target within {} ms]", udp::SLOW_LEN, 2 * udp::prune_timeout().as_secs() + 3, 2 * udp::prune_timeout().as_secs() + 1, udp::prune_timeout().as_secs() + udp::GAP_EXTRA_S, udp::GAP_FIRST_TX_MS) } else { format!("; plus one real-time scenario per UDP entry (3): idle gap between one and two prune timeouts (one exchange, {} s of silence, one more exchange from the same socket whose FIRST transmission must be at the target within {} ms)", udp::prune_timeout().as_secs() + udp::GAP_EXTRA_S, udp::GAP_FIRST_TX_MS) });
+    let unsendable_rule = format!(
+        "; plus SOCKS5 UDP (IPv4 header, domain header) x ONE association with a slow target: question-1 to target A (ONE transmission; A answers it {} ms after it got it), as soon as A has it ONE datagram to a second destination ({}), then the answer of A must reach the local client and question-2 to A must reach A from the same server-side address as question-1, {}-byte payloads (see assumptions)",
+        udp::UNSEND_DELAY_MS,
+        Topo::UNSENDABLE.iter().filter_map(|t| t.unsendable()).map(|(d, n, _)| format!("{n}: {}", d.describe())).collect::<Vec<_>>().join("; "),
+        udp::UNSEND_LEN
+    );
+    rep.rule = format!("complete product, every point enumerated (no sampling): TCP = entry point (7) x connections {:?} x chunking (3) x [close order (4) x client->target length in L x target->client length in L + target-refuses x client->target length in L], where {len_rule}{after_half_rule}{slow_rule}{v6_rule}{dual_rule}; UDP = entry (UDP remote, SOCKS5 UDP with IPv4 header, with domain header) x topology (1 client, 3 clients, 1 socket to 2 entry points, 1 client whose payload lengths change from datagram to datagram (len, 3, len+500, 0, len+1); SOCKS5 only: 1 association alternating between 2 targets with the same host string and different ports, and between 2 targets with different host strings 127.0.0.1/127.0.0.2 and the same port) x payload length, 3 request/reply exchanges per leg{stray_rule}{unsendable_rule}{families_rule}{dual_listener_rule}{}; one execution per point (more only after a lost port race or a deadline hit); a case is distinct when its parameter tuple is distinct", b.concs, if b.slow_udp { format!("; plus the real-time scenarios: UDP entry (3) x [steady sender: 1 datagram of {} bytes per second for 2*UDP_PRUNE_TIMEOUT+3 = {} s to a silent target, which then answers the last one | idle: one exchange, {} s of silence, one more exchange | idle gap between one and two prune timeouts: one exchange, {} s of silence, one more exchange from the same socket whose FIRST transmission must be at the target within {} ms]", udp::SLOW_LEN, 2 * udp::prune_timeout().as_secs() + 3, 2 * udp::prune_timeout().as_secs() + 1, udp::prune_timeout().as_secs() + udp::GAP_EXTRA_S, udp::GAP_FIRST_TX_MS) } else { format!("; plus one real-time scenario per UDP entry (3): idle gap between one and two prune timeouts (one exchange, {} s of silence, one more exchange from the same socket whose FIRST transmission must be at the target within {} ms)", udp::prune_timeout().as_secs() + udp::GAP_EXTRA_S, udp::GAP_FIRST_TX_MS) });
     rep.bounds.insert("tcp_entry_points".into(), json!(Entry::ALL.iter().map(|e| e.name()).collect::<Vec<_>>()));
     rep.bounds.insert("ipv6_loopback".into(), json!(b.ipv6_loopback));
     rep.bounds.insert("tcp_ipv6_literal_entry_points".into(), json!(if b.ipv6_loopback { Entry::V6.iter().map(|e| e.name()).collect::<Vec<_>>() } else { Vec::new() }));
@@ -1394,6 +1420,13 @@ pub fn run(args: &Args) -> Report {
     rep.bounds.insert("udp_stray_datagram_topologies".into(), json!(Topo::STRAY.iter().map(|e| e.name()).collect::<Vec<_>>()));
     rep.bounds.insert("udp_stray_datagram_payload_length".into(), json!(udp::STRAY_LEN));
     rep.bounds.insert("udp_stray_datagram_cases".into(), json!(cases.iter().filter(|c| matches!(c, Case::Udp(u) if u.topo.stray().is_some())).count()));
+    rep.bounds.insert("udp_unsendable_destination_topologies".into(), json!(Topo::UNSENDABLE.iter().map(|e| e.name()).collect::<Vec<_>>()));
+    rep.bounds.insert("udp_unsendable_destination_second_destinations".into(), json!(Topo::UNSENDABLE.iter().filter_map(|t| t.unsendable()).map(|(d, n, why)| json!({"variant": n, "destination": d.describe(), "why": why})).collect::<Vec<_>>()));
+    rep.bounds.insert("udp_unsendable_destination_entries".into(), json!(UKind::ALL.iter().filter(|k| UdpCase { kind: **k, size: udp::UNSEND_LEN, topo: Topo::UnsendControl }.valid()).map(|e| e.name()).collect::<Vec<_>>()));
+    rep.bounds.insert("udp_unsendable_destination_payload_length".into(), json!(udp::UNSEND_LEN));
+    rep.bounds.insert("udp_unsendable_destination_slow_target_delay_ms".into(), json!(udp::UNSEND_DELAY_MS));
+    rep.bounds.insert("udp_unsendable_destination_answer_lost_after_ms".into(), json!(udp::UNSEND_LOST_AFTER_MS));
+    rep.bounds.insert("udp_unsendable_destination_cases".into(), json!(cases.iter().filter(|c| matches!(c, Case::Udp(u) if u.topo.unsendable().is_some())).count()));
     rep.bounds.insert("tcp_payload_lengths".into(), json!(b.tcp_lens));
     rep.bounds.insert("tcp_payload_length_only_for_1_connection_one_write".into(), json!(b.tcp_len_window));
     rep.bounds.insert("tcp_connections".into(), json!(b.concs));
@@ -1425,6 +1458,9 @@ pub fn run(args: &Args) -> Report {
     rep.extra.insert("ipv6_loopback".into(), json!(b.ipv6_loopback));
     rep.extra.insert("tcp_ipv6_literal_cases_clean".into(), json!(sums.v6_cases_clean));
     rep.extra.insert("udp_stray_datagram_cases_clean".into(), json!(sums.stray_cases_clean));
+    rep.extra.insert("udp_unsendable_destination_cases_clean".into(), json!(sums.unsendable_cases_clean));
+    rep.extra.insert("udp_unsendable_destination_cases_judged_definitively".into(), json!(sums.udp.unsendable_judged));
+    rep.extra.insert("udp_unsendable_destination_answer_late_not_lost".into(), json!(sums.udp.unsendable_answer_late));
     rep.extra.insert("udp_two_address_families_cases_clean".into(), json!(sums.families_cases_clean));
     rep.extra.insert("udp_dual_stack_listener".into(), b.dual_listener_status());
     rep.extra.insert("udp_dual_stack_listener_cases_clean".into(), json!(sums.dual_listener_cases_clean));
@@ -1522,6 +1558,15 @@ pub fn run(args: &Args) -> Report {
     rep.assumptions.push("UDP loss tolerance: a request is retransmitted up to 5 times over 21.5 s before its reply counts as missing".into());
     rep.assumptions.push(format!("exceptions to the UDP loss tolerance, both judged on purpose before the schedule is used up: (a) idle-gap scenario: the FIRST datagram after the gap has {} ms to show up at the target (a deadline-type failure: it counts only when it shows again with the scenario run alone); (b) stray-datagram scenarios: an exchange unanswered after 3 transmissions is declared dead only if a fresh association through the same client, server and target then works and a 4th transmission on the old association (waiting at least 1 s and at least 20 times what the fresh association took) still gets nothing", udp::GAP_FIRST_TX_MS));
     rep.assumptions.push(format!("two-address-families scenarios (SOCKS5 UDP, one association, targets on 127.0.0.1 and [::1] in turn): a third exception to the UDP loss tolerance. The FIRST transmission of every exchange after the first has {} ms to show up at its target; if it has not, a fresh association through the same client and server makes one exchange with that very target (full loss tolerance); if that works and the datagram of the old association is still not at the target after at least 1 s and at least 20 times what the fresh association took, it is judged not delivered (key {}, not a deadline-type failure); the retransmissions then go on as usual", udp::FAMILIES_FIRST_TX_MS, udp::FAMILY_KEY));
+    rep.assumptions.push(format!(
+        "unsendable-destination scenarios (SOCKS5 UDP, one association, a target A that answers question-1 {} ms late, ONE datagram to a destination the server cannot send to while that answer is outstanding; control variant: a reachable second destination): a fourth exception to the UDP loss tolerance. Question-1 is transmitted ONCE (a retransmission would mask the loss of its answer); if it is not at A within {} ms the scenario goes on with the usual retransmissions and judges nothing definitively. Key {}.<variant>: A's own log shows that it received question-1 and SENT its answer (and to which address), the local client does not have the answer {} ms after A sent it nor at the end of the scenario, AND question-2, sent afterwards through the same association, is answered by A (every hop of the way back keeps the order of datagrams: an answer that was merely slow would be there first) or, if question-2 gets no reply either, a fresh association at the same entry point exchanges a datagram with A. Key {}.<variant>: A's own log shows question-2 coming from another address than question-1, less than UDP_PRUNE_TIMEOUT - {} s after the local client sent question-1. Both are deadline-type failures (they count only when they show again with the scenario run alone; the variants of the second destination count as one failure for that purpose); how many scenarios met the preconditions (question-1 at A after one transmission, the second datagram sent before A answered, A answered) is recorded in extra.udp_unsendable_destination_cases_judged_definitively",
+        udp::UNSEND_DELAY_MS,
+        udp::UNSEND_FIRST_TX_MS,
+        udp::UNSEND_LOST_KEY,
+        udp::UNSEND_LOST_AFTER_MS,
+        udp::UNSEND_PORT_KEY,
+        udp::UNSEND_PRUNE_MARGIN_S
+    ));
     rep.assumptions.push("dual-stack-name sub-matrix: what the resolver answers is controlled by a hosts file bind-mounted over /etc/hosts inside a private mount namespace of a child process (needs CAP_SYS_ADMIN; glibc's `files` NSS module); where that cannot be had the sub-matrix is skipped (bounds.dual_stack_names says why). The expectation is observed, not written down: a direct connection to (name, port) from the same process. The order of the addresses is whatever getaddrinfo returns (RFC 6724 sorting: recorded in bounds.dual_stack_name_resolver_order), so which listening set exposes a server that tries only the first address depends on the machine".into());
     rep.assumptions.push("IPv6-literal and dual-stack-name sub-matrices: a scenario in which every local connection has ended short of the target's payload (dual-stack names: or got a refusal / a close instead of the grant) while the target was never connected to is closed at once (key tcp.closed.target-not-reached.*) instead of waiting for the deadline".into());
 
@@ -1553,6 +1598,10 @@ pub fn run(args: &Args) -> Report {
         }
         if sums.udp.replies_verified == 0 || sums.udp.socks_headers_parsed == 0 {
             why.push("no UDP reply / SOCKS5 UDP header was verified");
+        }
+        // (one such scenario may be the load of the machine; none at all is a topology that does not do its job here)
+        if sums.unsendable_cases_clean > 0 && sums.udp.unsendable_judged == 0 {
+            why.push("every unsendable-destination scenario passed without meeting the preconditions of its judgement (question-1 at the slow target after one transmission, the datagram for the second destination sent while the answer was outstanding)");
         }
         if (sums.tcp_cases_clean + sums.refuse_cases_clean + sums.udp_cases_clean + sums.dual_cases_vacuous) as usize != n_distinct {
             why.push("clean cases do not add up to the matrix");
